@@ -154,6 +154,16 @@ def _closure_uses(node, name: str) -> bool:
 
 def drop_self_assignments(fn: ast.AST) -> int:
     n = 0
+    # an import statement repeated in the same block (helpers that were merged each brought their own)
+    for blk, _o, _f in _blocks_with_owner(fn):
+        seen = set()
+        for s in list(blk):
+            if isinstance(s, (ast.Import, ast.ImportFrom)):
+                t = ast.unparse(s)
+                if t in seen:
+                    blk.remove(s)
+                    n += 1
+                seen.add(t)
     for blk, _o, _f in _blocks_with_owner(fn):
         for s in list(blk):
             if isinstance(s, ast.Assign) and len(s.targets) == 1 and isinstance(s.targets[0], ast.Name) and isinstance(s.value, ast.Name) and s.value.id == s.targets[0].id:
